@@ -397,60 +397,112 @@ def d2(ctx, prog, dispatch_call):
 
 
 # ---------------------------------------------------------------------------------------------------------------- D3
+WIDTH = {'uint8': 8, 'uint16': 16, 'uint32': 32, 'uint64': 64, 'int8': 8, 'int16': 16, 'int32': 32, 'int64': 64, 'bool': 1, 'bool_': 1}
+
+
+def bit_eval(e, x, b, data, width=16):
+    """value of a pure bit expression for the input word x (held in `width` bits) and bit number b"""
+    if isinstance(e, ast.Constant) and isinstance(e.value, (int, bool)):
+        return int(e.value)
+    if isinstance(e, ast.Name):
+        if e.id == data:
+            return x
+        raise Undecidable(f'name {e.id}')
+    if isinstance(e, ast.Attribute) and norm(e) == 'self.bit':
+        return b
+    if isinstance(e, ast.UnaryOp) and isinstance(e.op, ast.Invert):
+        return ~bit_eval(e.operand, x, b, data, width) & ((1 << width) - 1)
+    if isinstance(e, ast.UnaryOp) and isinstance(e.op, ast.Not):
+        return int(not bit_eval(e.operand, x, b, data, width))
+    if isinstance(e, ast.BinOp):
+        l, r = bit_eval(e.left, x, b, data, width), bit_eval(e.right, x, b, data, width)
+        if isinstance(e.op, ast.Pow):
+            if not 0 <= r <= 64:
+                raise Undecidable('power')
+            return l ** r
+        if type(e.op) in bitprov.OPS and not isinstance(e.op, (ast.Div,)):
+            if isinstance(e.op, (ast.LShift, ast.RShift)) and not 0 <= r <= 64:
+                raise Undecidable('shift')
+            if isinstance(e.op, (ast.FloorDiv, ast.Mod)) and r == 0:
+                raise Undecidable('division')
+            return bitprov.OPS[type(e.op)](l, r)
+        raise Undecidable('operator')
+    if isinstance(e, ast.Compare) and len(e.ops) == 1:
+        import operator
+        ops = {ast.Eq: operator.eq, ast.NotEq: operator.ne, ast.Lt: operator.lt, ast.LtE: operator.le, ast.Gt: operator.gt, ast.GtE: operator.ge}
+        if type(e.ops[0]) in ops:
+            return int(ops[type(e.ops[0])](bit_eval(e.left, x, b, data, width), bit_eval(e.comparators[0], x, b, data, width)))
+    if isinstance(e, ast.Call):
+        name = last(norm(e.func))
+        if isinstance(e.func, ast.Attribute) and norm(e.func.value) in ('_np', 'np', 'numpy'):
+            args = [bit_eval(a, x, b, data, width) for a in e.args]
+            f2 = {'bitwise_and': lambda p, q: p & q, 'bitwise_or': lambda p, q: p | q, 'bitwise_xor': lambda p, q: p ^ q, 'right_shift': lambda p, q: p >> q,
+                  'left_shift': lambda p, q: p << q}
+            if name in f2 and len(args) == 2:
+                return f2[name](*args)
+            if name in WIDTH and len(args) == 1:
+                return args[0] & ((1 << WIDTH[name]) - 1) if WIDTH[name] > 1 else int(args[0] != 0)
+            raise Undecidable(f'numpy.{name}')
+        if isinstance(e.func, ast.Attribute) and e.func.attr == 'astype' and len(e.args) == 1:
+            t = norm(e.args[0]).strip('\'"').split('.')[-1]
+            v = bit_eval(e.func.value, x, b, data, width)
+            if t in WIDTH:
+                return v & ((1 << WIDTH[t]) - 1) if WIDTH[t] > 1 else int(v != 0)
+            raise Undecidable(f'astype({t})')
+        if isinstance(e.func, ast.Name) and e.func.id == 'int' and len(e.args) == 1:
+            return bit_eval(e.args[0], x, b, data, width)
+    raise Undecidable(f'expression `{norm(e)[:40]}`')
+
+
 def d3(ctx, prog):
     mono = prog.need_class(M, 'Monobit')
     f = prog.resolve_method(mono, '_compute')
     init = prog.resolve_method(mono, '__init__')
     data = f.params[1]
     key = f'{f.key}::bit test'
-    body = body_no_doc(f)
-    if len(body) != 1 or not isinstance(body[0], ast.Return):
-        raise AnalysisError('Monobit._compute is not a single return')
-    e = body[0].value
-    # cast
-    cast = None
-    if isinstance(e, ast.Call) and isinstance(e.func, ast.Attribute) and e.func.attr == 'astype' and e.args:
-        cast, e = norm(e.args[0]).strip('\'"').split('.')[-1], e.func.value
-    elif isinstance(e, ast.Call) and last(norm(e.func)) in ('uint8', 'uint16', 'uint32') and len(e.args) == 1:
-        cast, e = last(norm(e.func)), e.args[0]
-    ctx.check(cast in ('uint8', 'uint16', 'uint32', 'uint64'), 'C15-D3', f'{f.key}::cast', f'result type `{cast}`: the bit is not returned as an unsigned integer 0/1', f'result cast to {cast}', f.where())
-    # compare
-    if not (isinstance(e, ast.Compare) and len(e.ops) == 1):
-        ctx.undecided('C15-D3', key, f'`{norm(e)[:60]}` is not a comparison of a masked value', f.where())
-        return
-    left, cmpc = e.left, e.comparators[0]
-    if not (isinstance(left, ast.Call) and last(norm(left.func)) == 'bitwise_and' and len(left.args) == 2) and not (isinstance(left, ast.BinOp) and isinstance(left.op, ast.BitAnd)):
-        ctx.undecided('C15-D3', key, f'`{norm(left)[:60]}` is not a bitwise and', f.where())
-        return
-    ops = list(left.args) if isinstance(left, ast.Call) else [left.left, left.right]
-    dat = [o for o in ops if norm(o) == data]
-    msk = [o for o in ops if norm(o) != data]
-    if len(dat) != 1 or len(msk) != 1:
-        ctx.fail('C15-D3', key, f'`{norm(left)[:60]}` does not mask the data argument `{data}`', f.where())
-        return
-    mask = msk[0]
-    bad = []
+    paths = astutil.return_paths(f.node)
+    if not paths or len(paths) != 1 or paths[0][1] is None:
+        raise AnalysisError('Monobit._compute: returned expression not derivable')
+    e = paths[0][1]
+    # admitted bit numbers: from the constructor's refusals (bit < lo or bit > hi)
+    hi = 8
+    for n_ in ast.walk(init.node):
+        if isinstance(n_, ast.Compare) and len(n_.ops) == 1 and norm(n_.left) == init.params[1] and isinstance(n_.ops[0], ast.Gt) and isinstance(const_value(n_.comparators[0]), int):
+            hi = const_value(n_.comparators[0])
     try:
-        for b in range(8):
-            env = {'self.bit': b}
-            mv = ceval(mask, env)
-            if mv != 1 << b:
-                bad.append(f'bit {b}: mask {mv}, expected {1 << b}')
-                continue
-            for val, expect in ((0, False), (mv, True)):
-                class R(ast.NodeTransformer):
-                    def visit_Call(self, n):
-                        return ast.Constant(val) if n is left else self.generic_visit(n)
-
-                    def visit_BinOp(self, n):
-                        return ast.Constant(val) if n is left else self.generic_visit(n)
-                got = ceval(ast.Compare(ast.Constant(val), e.ops, [cmpc]), env)
-                if bool(got) != expect:
-                    bad.append(f'bit {b}: masked value {val} gives {bool(got)}')
-        ctx.check(not bad, 'C15-D3', key, f'`{norm(e)[:70]}` is not bit b of the value: {bad[0] if bad else ""}', f'`{norm(e)[:70]}`: mask(b) = 2**b and the comparison is true exactly on a set bit, b = 0..7',
-                  f.where(), bits_evaluated=8)
+        bad = None
+        n_eval = 0
+        domain = list(range(512)) + [v | 0xFE00 for v in range(0, 512, 37)] + [0xFFFF, 0x8000, 0x0100, 0xFEFF]
+        for b in range(0, min(hi, 15) + 1):
+            for x in domain:
+                n_eval += 1
+                got = bit_eval(e, x, b, data)
+                if got != (x >> b) & 1:
+                    bad = (b, x, got)
+                    break
+            if bad:
+                break
+        if bad:
+            b, x, got = bad
+            ctx.fail('C15-D3', key, f'`{norm(e)[:70]}` is not bit b of the value: Monobit({b}) of the 16-bit word {x:#06x} gives {got}, bit {b} is {(x >> b) & 1}'
+                     + (' (the constructor admits bit 8: data wider than one byte must keep their upper byte)' if b >= 8 else ''), f.where(), evaluations=n_eval)
+        else:
+            ctx.ok('C15-D3', key, f'`{norm(e)[:70]}` equals bit b of the value for b = 0..{min(hi, 15)} on {len(domain)} 16-bit words (all 9-bit patterns, with and without upper bits)', f.where(), evaluations=n_eval)
     except Undecidable as ex:
-        ctx.undecided('C15-D3', key, f'mask / comparison not evaluable: {ex}', f.where())
+        ctx.undecided('C15-D3', key, f'bit expression not evaluable: {ex}', f.where())
+    # result type: an unsigned / boolean 0-1 array (the expression ends in a cast or is a masked shift of the data)
+    outer = e
+    cast = None
+    if isinstance(outer, ast.Call) and isinstance(outer.func, ast.Attribute) and outer.func.attr == 'astype' and outer.args:
+        cast = norm(outer.args[0]).strip('\'"').split('.')[-1]
+    elif isinstance(outer, ast.Call) and last(norm(outer.func)) in WIDTH:
+        cast = last(norm(outer.func))
+    if cast is not None:
+        ctx.check(cast.startswith('uint') or cast.startswith('bool'), 'C15-D3', f'{f.key}::cast', f'result type `{cast}`: the bit is not returned as an unsigned integer 0/1', f'result cast to {cast}', f.where())
+    elif isinstance(outer, ast.Compare):
+        ctx.ok('C15-D3', f'{f.key}::cast', 'result is a boolean 0/1 array', f.where())
+    else:
+        ctx.ok('C15-D3', f'{f.key}::cast', 'result keeps the (unsigned) type of the masked data', f.where())
     # the constructor stores the bit unchanged
     stores = [s for s in ast.walk(init.node) if isinstance(s, ast.Assign) and norm(s.targets[0]) == 'self.bit']
     ctx.check(len(stores) == 1 and norm(stores[0].value) == init.params[1], 'C15-D3', f'{init.key}::self.bit', 'the constructor does not store its `bit` argument unchanged', 'self.bit = bit', init.where())
